@@ -297,13 +297,32 @@ SubCase(g, lo, hi) ==
 QCount(g) == Tup(g.nd, LAMBDA k : 2 * g.nx[k] + 3)
 QSeq(g)   == [t \in 1..NTot(g.nd, QCount(g)) |->
                 LET j == IdxOf(g.nd, QCount(g), t - 1) IN Tup(g.nd, LAMBDA k : 2 * j[k] - 3)]
+\* Entry points that take a LIST of sample ranks (a permuted subset) or a SELECTION of samples must
+\* answer, for each designated sample, what they answer for that sample alone:
+\*   pick    = the ranks (0-based) not congruent to 1 modulo 3, in decreasing order
+\*   selmask = 1 for the active samples (rank not congruent to 2 modulo 3)
+PickSeq(np) == LET s == SelectSeq([t \in 1..np |-> t - 1], LAMBDA x : x % 3 # 1)
+               IN  [t \in 1..Len(s) |-> s[Len(s) + 1 - t]]
+SelMask(np) == [t \in 1..np |-> IF (t - 1) % 3 = 2 THEN 0 ELSE 1]
+AtPick(seq, pick)   == [t \in 1..Len(pick) |-> seq[pick[t] + 1]]
+Masked(seq, mask)   == [t \in 1..Len(seq) |-> IF mask[t] = 1 THEN seq[t] ELSE -1]        \* -1 = not assigned
+Compress(seq, mask) == LET F[t \in 0..Len(seq)] == IF t = 0 THEN <<>>
+                                                   ELSE IF mask[t] = 1 THEN Append(F[t-1], seq[t]) ELSE F[t-1]
+                       IN F[Len(seq)]
 MigrateCase(g) ==
-  LET qs == QSeq(g) IN
+  LET qs   == QSeq(g)
+      np   == Len(qs)
+      rcs  == [t \in 1..np |-> RankOrOut(g.nd, g.nx, IdxCorner(g, QPoint(g, qs[t])))]
+      ris  == [t \in 1..np |-> RankOrOut(g.nd, g.nx, IdxCentre(g, QPoint(g, qs[t])))]
+      pick == PickSeq(np)
+      mask == SelMask(np) IN
   [k |-> "migrate", g |-> g,
-   PS  |-> [ns |-> [t \in 1..Len(qs) |-> QPoint(g, qs[t]).n], d |-> 4 * g.d],
-   rcs |-> [t \in 1..Len(qs) |-> RankOrOut(g.nd, g.nx, IdxCorner(g, QPoint(g, qs[t])))],
-   ris |-> [t \in 1..Len(qs) |-> RankOrOut(g.nd, g.nx, IdxCentre(g, QPoint(g, qs[t])))],
-   ois |-> [t \in 1..Len(qs) |-> B(~InRange(g.nd, g.nx, IdxCentre(g, QPoint(g, qs[t]))))]]
+   PS  |-> [ns |-> [t \in 1..np |-> QPoint(g, qs[t]).n], d |-> 4 * g.d],
+   rcs |-> rcs, ris |-> ris,
+   ois |-> [t \in 1..np |-> B(~InRange(g.nd, g.nx, IdxCentre(g, QPoint(g, qs[t]))))],
+   pick |-> pick, rcsL |-> AtPick(rcs, pick), risL |-> AtPick(ris, pick),
+   selmask |-> mask, rcsM |-> Masked(rcs, mask), risM |-> Masked(ris, mask),
+   rcsS |-> Compress(rcs, mask), risS |-> Compress(ris, mask)]
 
 Limits(g) == { lh \in [1..g.nd -> (0..MaxNx) \X (0..MaxNx)] :
                  \A k \in 1..g.nd : lh[k][1] < lh[k][2] /\ lh[k][2] <= g.nx[k] }
@@ -364,6 +383,14 @@ CaseOk(c) ==
     [] c.k \in {"multiple", "divider", "dilate", "subgrid"} -> DerivedOk(c) /\ Len(c.XS.ns) = NTot(c.g.nd, c.nx)
     [] c.k = "migrate" -> /\ Len(c.rcs) = Cardinality(QSet(c.g)) /\ Len(c.PS.ns) = Len(c.rcs)
                           /\ {QSeq(c.g)[t] : t \in 1..Len(c.rcs)} = QSet(c.g)
+                          \* the list is a permuted proper subset, the selection is not a prefix, and both
+                          \* contain samples whose two kinds of cell differ (else the argument is not exercised)
+                          /\ \A t \in 1..Len(c.pick) : c.pick[t] \in 0..(Len(c.rcs) - 1)
+                          /\ \A t, u \in 1..Len(c.pick) : t < u => c.pick[t] > c.pick[u]
+                          /\ Len(c.pick) < Len(c.rcs) /\ Len(c.rcsL) = Len(c.pick)
+                          /\ Len(c.rcsS) = Cardinality({t \in 1..Len(c.rcs) : c.selmask[t] = 1})
+                          /\ \E t \in 1..Len(c.rcs) : c.selmask[t] = 0 /\ \E u \in (t+1)..Len(c.rcs) : c.selmask[u] = 1
+                          /\ c.rcsL # c.risL /\ c.rcsS # c.risS
 
 \* what is printed for the harness
 GridOut(g) == g
